@@ -165,9 +165,10 @@ def tool(shape):
         sim.open()
         ref = _build(sim, eng, shape)
         sim._close_db()
-        src = open('/repo/electrumx_compact_history').read()
+        tool_path = os.environ.get('VERIF_REPO', '/repo').rstrip('/') + '/electrumx_compact_history'
+        src = open(tool_path).read()
         ns = {'__name__': 'compact_tool'}
-        exec(compile(src, '/repo/electrumx_compact_history', 'exec'), ns)
+        exec(compile(src, tool_path, 'exec'), ns)
         saved = dict(os.environ)
         from vlib.world import BASE_ENV
         os.environ.update(BASE_ENV)
